@@ -1,12 +1,12 @@
 package props
 
 import (
-	"reflect"
 	"bytes"
 	"errors"
 	"fmt"
 	"io"
 	"math/rand"
+	"reflect"
 	"testing"
 
 	tls "github.com/refraction-networking/utls"
